@@ -440,12 +440,10 @@ class Stream(object):
 
 def is_no_body(request, response, no_content_codes=DEFAULT_NO_CONTENT_CODES):
     '''Return whether a content body is not expected.'''
-    if 'Content-Length' not in response.fields \
-            and 'Transfer-Encoding' not in response.fields \
-            and (
-                response.status_code in no_content_codes
-                or request.method.upper() == 'HEAD'
-            ):
+    if response.status_code in no_content_codes \
+            or request.method.upper() == 'HEAD':
+        # RFC 7230 3.3.3: these never have a body, even if Content-Length
+        # or Transfer-Encoding is present
         return True
     else:
         return False
